@@ -245,11 +245,72 @@ def check_update_predict(got, exp, steps, desc):
         return [D("update_predict_cutoff_labels", "%s: columns %s expected %s" % (desc, list(got.columns), cutoffs))]
     out = []
     for c, p in exp:
-        col = got[c].dropna().sort_index()
+        col = got[c].reindex(p.index)  # per label; nan forecasts (window not yet full) stay nan
         if not close(col, p):
             out.append(D("update_predict_differs", "%s cutoff %d: got %s expected %s" % (desc, c, col.tolist(), p.tolist())))
             break
     return out
+
+
+def oracle_detrender(case, ctx):
+    """A Detrender that was updated has a trend forecaster that observed all the data:
+    after fit(y1), update(y2, p2), ..., update(yk, True) it transforms like a fresh Detrender
+    fitted on the union; after any update its inner forecaster's cutoff is the end of the data."""
+    from sktime.forecasting.naive import NaiveForecaster
+    from sktime.forecasting.trend import PolynomialTrendForecaster
+    from sktime.transformations.series.detrend import Detrender
+
+    def make():
+        if case["inner"] == "mean":
+            return Detrender(NaiveForecaster(strategy="mean", window_length=case["wl"]))
+        if case["inner"] == "last":
+            return Detrender(NaiveForecaster(strategy="last"))
+        return Detrender(PolynomialTrendForecaster(degree=case["degree"]))
+
+    master = [v + ((i * 37) % 11) / 7.0 for i, v in enumerate(case["values"])]
+    start, ik = case["start"], case["index_kind"]
+    n0 = case["n"]
+    y1 = gen.build_series(master[:n0], start, ik)
+    t = make()
+    r = sut(t.fit, y1.copy())
+    if isinstance(r, Raised):
+        return [unexpected(r, "Detrender.fit")]
+    pos = n0
+    discs = []
+    ctx.label(case["inner"])
+    flags = case["flags"] + [True]
+    ctx.mark_nontrivial(False in flags)
+    for k, up in zip(case["batches"] + [case["last_batch"]], flags):
+        yb = gen.build_series(master[pos: pos + k], start + pos, ik)
+        pos += k
+        u = sut(t.update, yb.copy(), None, up)
+        if isinstance(u, Raised):
+            return [D("detrender_update_raised:%s@%s" % (u.type, u.where), "flags=%s: %s" % (flags, u.msg))]
+        c = sut(lambda: int(t.forecaster_.cutoff))
+        if isinstance(c, Raised) or c != start + pos - 1:
+            discs.append(D("detrender_update_drops_data", "flags=%s: trend forecaster cutoff %r after data up to %d" % (flags, c, start + pos - 1)))
+            return discs
+    union = gen.build_series(master[:pos], start, ik)
+    fresh = make().fit(union.copy())
+    z = gen.build_series([3.5 + 0.25 * j for j in range(5)], start + pos, ik)
+    a, b = sut(t.transform, z.copy()), sut(fresh.transform, z.copy())
+    if isinstance(b, Raised):
+        raise AssertionError("fresh detrender failed: %r" % (b,))
+    if isinstance(a, Raised) or not close(a, b):
+        discs.append(D("detrender_update_not_equivalent_to_observing", "%s flags=%s: transform %s vs fresh fit on all data %s"
+                       % (case["inner"], flags, a if isinstance(a, Raised) else a.tolist(), b.tolist())))
+    return discs
+
+
+@st.composite
+def detrender_cases(draw):
+    inner = draw(st.sampled_from(["mean", "mean", "last", "poly"]))
+    n = draw(st.integers(8, 16))
+    batches = draw(st.lists(st.integers(1, 4), min_size=1, max_size=3))
+    return {"inner": inner, "wl": draw(st.integers(2, 6)), "degree": draw(st.integers(0, 2)), "n": n,
+            "batches": batches, "flags": [draw(st.booleans()) for _ in batches], "last_batch": draw(st.integers(1, 4)),
+            "values": draw(gen.series_values(40, 40, lo=5.0, hi=300.0)),
+            "start": draw(gen.index_start), "index_kind": draw(gen.index_kind)}
 
 
 def specs():
@@ -299,7 +360,8 @@ def cases(draw):
 
 
 def subchecks():
-    return [SubCheck("histories", oracle, cases(), quick=1800, thorough=20000, shards_quick=12, shards_thorough=16)]
+    return [SubCheck("histories", oracle, cases(), quick=1800, thorough=20000, shards_quick=12, shards_thorough=16),
+            SubCheck("detrender_histories", oracle_detrender, detrender_cases(), quick=400, thorough=6000, shards_quick=2, shards_thorough=4)]
 
 
 def _sel_fit_without_fh(case, disc):
